@@ -208,7 +208,7 @@ func (s *shrinker) removeGroupsAndLower(deadline time.Time) {
 
 func (s *shrinker) sortGroups(deadline time.Time) {
 	for i := 1; i < len(s.rec.groups) && time.Now().Before(deadline); i++ {
-		for j := i; j > 0; {
+		for j := i; j > 0 && j < len(s.rec.groups); { // an accepted swap can leave a pruned recording with fewer groups
 			g := s.rec.groups[j]
 			if !g.standalone || g.end < 0 {
 				break
